@@ -1,6 +1,6 @@
 ----------------------------- MODULE LifecycleTrace -----------------------------
 (* Binding B for Lifecycle.tla: traces recorded from real pipelines on a virtual-time scheduler.
-   A trace is [strict |-> BOOLEAN, ev |-> sequence of events]:
+   A trace is [strict |-> BOOLEAN, own |-> BOOLEAN, solo |-> BOOLEAN, ev |-> sequence of events]:
      [e |-> "open", id]  [e |-> "close", id]  [e |-> "sink", k]  [e |-> "gout", g]  [e |-> "gnext", g]
      [e |-> "gend", g]   [e |-> "dispose"]    [e |-> "cb", r, o]    [e |-> "tick", t]  [e |-> "end"]
    ("escape", an exception of a pipeline function reaching the emitter or the scheduler, matches no action.)
@@ -23,14 +23,14 @@ TInit == /\ tid \in 1..NTraces /\ l = 1
 TNext == /\ More /\ Step
          /\ CASE Evt.e = "open"    -> SubOpen(Evt.id)
               [] Evt.e = "close"   -> SubClose(Evt.id)
-              [] Evt.e = "sink"    -> Sink(Evt.k)
-              [] Evt.e = "gout"    -> GroupOut(Evt.g)
+              [] Evt.e = "sink"    -> Sink(Evt.k) /\ FaultThenError(Traces[tid].solo, Evt.k)
+              [] Evt.e = "gout"    -> GroupOut(Evt.g) /\ FaultThenError(Traces[tid].solo, "N")
               [] Evt.e = "gnext"   -> GroupNext(Evt.g)
               [] Evt.e = "gend"    -> GroupEnd(Evt.g)
               [] Evt.e = "dispose" -> Dispose
               [] Evt.e = "cb"      -> UserCb(Evt.r, Evt.o)
-              [] Evt.e = "tick"    -> Tick(Evt.t)
-              [] Evt.e = "end"     -> End /\ UNCHANGED <<now, open, ever, stopped, disposed, live, gone, faulted, settled, fsettled, strict>>
+              [] Evt.e = "tick"    -> Tick(Evt.t) /\ FaultEndsGroups(Traces[tid].own)
+              [] Evt.e = "end"     -> End /\ FaultEndsGroups(Traces[tid].own) /\ UNCHANGED <<now, open, ever, stopped, disposed, live, gone, faulted, settled, fsettled, strict>>
               [] OTHER             -> FALSE
 
 Track == TLCSet(tid, IF TLCGet(tid) < l THEN l ELSE TLCGet(tid))
